@@ -21,7 +21,7 @@ RULE = ("cases from rng(seed, 14, 0, i): a file of 5..60 lines mixing all 10 sup
         "numbers rendered in every format float() accepts (repr, %.17e, +/-, leading zeros, '.5', '5.', underscores, E+0), 1-5 spaces between fields, trailing spaces, "
         "LF/CRLF, interleaved junk (comments, FIX lines, wrong-case tags, tag+tab, leading space, unknown tags) and blank lines; parameter ids redefined / several ids. "
         "distinct = fingerprint of the file text; non-trivial = >= 3 supported line types and >= 1 junk line.")
-REQ = ["eval:objects-match-tokenizer", "eval:warnings-match-junk-lines", "eval:junk-removal-changes-nothing", "eval:entry-points-agree", "eval:custom-types-claim-own-lines",
+REQ = ["eval:objects-match-tokenizer", "eval:warnings-match-junk-lines", "eval:junk-removal-changes-nothing", "eval:entry-points-agree", "eval:custom-types-claim-own-lines", "eval:reload-after-another-file-identical",
        "line:VERTEX_SE2", "line:VERTEX_SE3:QUAT", "line:VERTEX_XY", "line:VERTEX_TRACKXYZ", "line:EDGE_SE2", "line:EDGE_SE3:QUAT", "line:EDGE_SE2_XY", "line:EDGE_SE3_TRACKXYZ",
        "line:PARAMS_SE2OFFSET", "line:PARAMS_SE3OFFSET", "class:crlf", "class:several_param_ids", "class:junk:tag_tab", "class:junk:leading_space", "class:junk:wrong_case"]
 PLAN = {
@@ -367,6 +367,14 @@ def run_case(ctx, i, rng):
                       feats, {"custom_lines": n_custom, "custom_objects": got_custom, "lost_without_registration": lost}, case)
         else:
             ctx.check("custom-types-claim-own-lines", True)
+        # no state across loads: load another file with clashing ids and parameter ids, then this file again
+        other = os.path.join(d, "other.g2o")
+        with open(other, "w", newline="") as f:
+            f.write("PARAMS_SE3OFFSET 0 9 9 9 0 0 0 1\nPARAMS_SE3OFFSET 1 8 8 8 1 0 0 0\nPARAMS_SE2OFFSET 0 7 7 1\nVERTEX_SE3:QUAT 1 0 0 0 0 0 0 1\nVERTEX_TRACKXYZ 2 1 1 1\n"
+                    "EDGE_SE3_TRACKXYZ 1 2 1 0.5 0.5 0.5 1 0 0 1 0 1\nVERTEX_SE2 5 1 2 3\nVERTEX_XY 6 1 1\nEDGE_SE2_XY 5 6 0.1 0.2 1 0 1\n")
+        load_with_log(M.Graph.from_g2o, other)
+        g_again, _ = load_with_log(M.Graph.from_g2o, path, custom_edge_types=ctypes if with_custom else None)
+        ctx.check("reload-after-another-file-identical", graph_signature(g) == graph_signature(g_again), feats, None, case)
         # differential: remove junk and blank lines
         clean = "".join(t for t, kind in lines if kind not in ("junk", "blank"))
         p2 = os.path.join(d, "clean.g2o")
